@@ -38,7 +38,7 @@ def strategy_(draw, tier):
     rel = draw(st.sampled_from(RELATIONS))
     classes = None
     if rel == "ignore_equiv_scale0":
-        classes = list(INEXACT)
+        classes = list(INEXACT) + ["kLeastAbsErrorsCycles", "kMinPathErrorCycles"]
     elif rel in ("declare_existing_source_sink", "extra_start_end"):
         classes = sorted(gen.HAS_STARTS_ENDS)
     elif rel == "length_coverage":
@@ -195,12 +195,23 @@ def run_case(case, tier="quick"):
         dk[ckey] = list(dk.get(ckey, [])) + [sub]
     elif rel == "ignore_equiv_scale0":
         e = elems[pick[0] % len(elems)]
+        if pick[3] % 2 == 0:
+            # prefer the heaviest element: the one a weight-based selection (percentile) would trust
+            wts = {repr(n_): d_.get("flow", 0) for n_, d_ in case["graph"]["nodes"]} if node_mode else {repr([u_, v_]): d_.get("flow", 0) for u_, v_, d_ in case["graph"]["edges"]}
+            e = max(elems, key=lambda x_: (wts.get(repr(x_), 0), repr(x_)))
         a = copy.deepcopy(base)
         a["kw"]["elements_to_ignore"] = list(a["kw"].get("elements_to_ignore", [])) + ([e] if e not in a["kw"].get("elements_to_ignore", []) else [])
         a["kw"]["error_scaling"] = [x for x in a["kw"].get("error_scaling", []) if x[0] != e]
         b = copy.deepcopy(base)
         b["kw"]["elements_to_ignore"] = [x for x in b["kw"].get("elements_to_ignore", []) if x != e]
         b["kw"]["error_scaling"] = [x for x in b["kw"].get("error_scaling", []) if x[0] != e] + [[e, 0]]
+        if cls in ("kLeastAbsErrorsCycles", "kMinPathErrorCycles") and not node_mode and pick[1] % 3 != 0:
+            # edges selected for safety by weight percentile: an ignored element and an element with scale 0 must both drop out
+            # of that selection (whatever the selection does to the optimum, it must do the same on both sides)
+            pct = [25, 50, 75][pick[2] % 3]
+            a["kw"]["trusted_edges_for_safety_percentile"] = pct
+            b["kw"]["trusted_edges_for_safety_percentile"] = pct
+            labels.add("trusted_percentile")
         base, der, expect = a, b, "same"
         try:
             rb = run_model(base, tier)
